@@ -26,6 +26,16 @@ Theorem C05_reload : forall S alts pk l r dr s1,
   exists r' s2, reload S alts pk l r = Some (r', s2) /\ iso (dst s2) r' (heap_of l) r.
 Proof. exact reload_iso. Qed.
 
+(* the same with every hypothesis on the input: an object graph g that fits the schema (wf_src), without alternatively
+   mapped classes (F04), without repeated collection elements and without values in self-referential single
+   references (F05_src); keys: any assignment injective on the DAOs of a hierarchy *)
+Theorem C05_reload_src : forall S alts pk l r,
+  wf_heap l r = true -> F04 alts l = true -> wf_src S l = true -> F05_src S l = true ->
+  exists dr s1, to_dao alts l r = Some (dr, s1) /\
+    ((forall a b, a < nxt s1 -> b < nxt s1 -> K S (dst s1) pk a = K S (dst s1) pk b -> a = b) ->
+     exists r' s2, reload S alts pk l r = Some (r', s2) /\ iso (dst s2) r' (heap_of l) r).
+Proof. exact reload_iso_src. Qed.
+
 (* every distinct object is stored as exactly one root row: root row i <-> the reachable object x with memo x = i *)
 Theorem C05_one_root_row_per_object : forall S alts pk l r dr s1,
   wf_heap l r = true -> F04 alts l = true -> to_dao alts l r = Some (dr, s1) ->
@@ -61,6 +71,7 @@ Definition c05_example : lheap :=
    (3, mkObj 1 [12%Z] [])].
 Example C05_nonvacuous :
   wf_heap c05_example 0 = true /\ F04 [] c05_example = true /\
+  wf_src c05_schema c05_example = true /\ F05_src c05_schema c05_example = true /\
   frag_code c05_schema [] c05_example 0 = 7%Z /\
   model_reload c05_schema [] c05_example 0 = spec_canon c05_example 0 /\
   model_counts c05_schema [] c05_example 0 [1; 2; 3; 5]%Z [7%Z] = SL [SL [SZ 3; SZ 2; SZ 1; SZ 1]; SL [SZ 3]]%Z.
@@ -68,6 +79,7 @@ Proof. repeat split; vm_compute; reflexivity. Qed.
 
 Print Assumptions C05_load_flush.
 Print Assumptions C05_reload.
+Print Assumptions C05_reload_src.
 Print Assumptions C05_one_root_row_per_object.
 Print Assumptions C05_refuted_selfref.
 Print Assumptions C05_refuted_repeated_element.
